@@ -6,8 +6,9 @@
 (* TLS.                                                                    *)
 EXTENDS WSDialMC
 
-CONSTANTS Parts,   \* subset of {"reply", "url", "hdr", "hist"}
-          MaxDev   \* maximal number of deviations from the good reply / plain URL (99 = full product)
+CONSTANTS Parts,   \* subset of {"reply", "url", "hdr", "hist", "body", "urlp"}
+          MaxDev,  \* maximal number of deviations from the good reply / plain URL (99 = full product)
+          BodyLens, BodyRBufs, BodySegs, BodyKinds, BodyURLs   \* part "body" (see below)
 
 Statuses == {101, 100, 200, 301, 400, 403, 410, 500}
 UpgVals  == { << << "websocket" >> >>, << << "WebSocket" >> >>, << << "foo", "websocket" >> >>,
@@ -15,7 +16,8 @@ UpgVals  == { << << "websocket" >> >>, << << "WebSocket" >> >>, << << "foo", "we
 ConVals  == { << << "Upgrade" >> >>, << << "upgrade" >> >>, << << "keep-alive", "Upgrade" >> >>,
               << << "close" >> >>, << >>, << << "keep-alive" >>, << "upGrade" >> >> }
 AccVals  == {"ok", "ows", "stale", "other", "key", "absent", "swap", "lower", "trunc", "empty", "twice"}
-Bodies   == { << 0, FALSE >>, << 0, TRUE >>, << 10, TRUE >>, << 1024, TRUE >>, << 1025, TRUE >>, << 5000, TRUE >>, << 5000, FALSE >> }
+Bodies   == { << 0, FALSE >>, << 0, TRUE >>, << 1, TRUE >>, << 10, TRUE >>, << 1023, TRUE >>, << 1024, TRUE >>, << 1025, TRUE >>,
+              << 3000, FALSE >>, << 5000, TRUE >>, << 5000, FALSE >> }
 Exts     == {"none", "pmd2", "pmd_s", "pmd_c", "pmd0", "other", "other_pmd2"}
 
 B2I(b) == IF b THEN 1 ELSE 0
@@ -29,7 +31,8 @@ Replies ==
                 ReplyDev(x[1], x[2], x[3], x[4], x[5], x[6]) <= MaxDev } }
 
 Schemes == {"ws", "wss", "WS", "http", "https", "", "ftp"}
-Users   == {"none", "user", "userpass"}
+(* userinfo forms: user@, user:password@, :password@ (empty user name), :@ and the bare @ *)
+Users   == {"none", "user", "userpass", "pass", "colon", "empty"}
 Hosts   == { << "name", "example.test", "example.test", "" >>, << "nameport", "example.test", "example.test", "8080" >>,
              << "v4", "192.0.2.7", "192.0.2.7", "" >>, << "v4port", "192.0.2.7", "192.0.2.7", "8443" >>,
              << "v6", "[2001:db8::1]", "2001:db8::1", "" >>, << "v6port", "[2001:db8::1]", "2001:db8::1", "9443" >> }
@@ -64,18 +67,52 @@ SetCfgs == { [BaseCfg EXCEPT !.subs = s, !.comp = cm, !.jar = j, !.tmo = t] :
                s \in { << >>, << "chat", "superchat" >> }, cm \in BOOLEAN, j \in BOOLEAN, t \in {"none", "ht"} }
 
 CoreCfgs == { BaseCfg, [BaseCfg EXCEPT !.subs = << "chat", "superchat" >>, !.comp = TRUE, !.tmo = "ht"] }
-MCCfgs == IF "hdr" \in Parts THEN SetCfgs ELSE CoreCfgs
+MCCfgs == (IF "hdr" \in Parts THEN SetCfgs ELSE CoreCfgs)
+          \cup (IF "body" \in Parts THEN BodyCfgs ELSE {})
+          \cup (IF "urlp" \in Parts THEN ProxyCfgs ELSE {})
 
 D1(u, h, r) == Dial(u, h, r, OkCReply, "valid", NoFault, FALSE)
+
+(* Part "body": "any other reply yields ErrBadHandshake together with the response (status, headers, up to 1024    *)
+(* body bytes)" for bodies of lengths around 0 / 1 / 1023 / 1024 / 1025 / 3000 / 5000, with and without          *)
+(* Content-Length, handed to the transport in 1..3 segments (offsets relative to the end of the header block:     *)
+(* inside the final CRLFCRLF, exactly behind it, inside the body, at and behind byte 1024), for small and large    *)
+(* Dialer.ReadBufferSize.                                                                                          *)
+SegOf(k) ==
+  CASE k = "one" -> << >>          [] k = "hdr|body" -> << 0 >>       [] k = "hdr+1" -> << 1 >>
+    [] k = "crlf" -> << -1 >>      [] k = "mid" -> << 300 >>           [] k = "hdr|512" -> << 0, 512 >>
+    [] k = "100|1023" -> << 100, 1023 >>  [] k = "1024" -> << 1024 >>  [] k = "crlf|1" -> << -3, 1 >>
+    [] k = "1|2" -> << 1, 2 >>     [] k = "1000|1024" -> << 1000, 1024 >>  [] k = "2000" -> << 2000 >>
+    [] k = "hdr-40" -> << -40 >>   [] k = "1023|1025" -> << 1023, 1025 >>
+    [] OTHER -> << >>
+NegOf(k, b, cl, sg) ==
+  LET base == CASE k = "403" -> StdReply(403, << >>, << >>, "absent", b, cl, "none")
+                [] k = "200ok" -> StdReply(200, << << "websocket" >> >>, << << "Upgrade" >> >>, "ok", b, cl, "none")
+                [] k = "500close" -> StdReply(500, << >>, << << "close" >> >>, "absent", b, cl, "none")
+                [] OTHER -> StdReply(101, << << "websocket" >> >>, << << "Upgrade" >> >>, "other", b, cl, "none")
+  IN [base EXCEPT !.seg = SegOf(sg)]
+BodyCfgs == { [BaseCfg EXCEPT !.rbuf = b] : b \in BodyRBufs }
+BodyDials ==
+  { << D1([PlainURL EXCEPT !.scheme = s], << >>, NegOf(k, b, cl, sg)) >> :
+      s \in BodyURLs, k \in BodyKinds, b \in BodyLens, cl \in BOOLEAN, sg \in BodySegs }
+
+(* Part "urlp": userinfo and foreign schemes with a proxy configured: refused without consulting the proxy. *)
+ProxyCfgs == { [BaseCfg EXCEPT !.proxy = p, !.pport = IF p = "socks5" THEN "1080" ELSE "3128"] : p \in {"http", "socks5"} }
+UrlPDials ==
+  { << D1([PlainURL EXCEPT !.scheme = s, !.user = u], << >>, GoodReply) >> :
+      s \in {"ws", "wss", "http"}, u \in Users }
 WssURL == [PlainURL EXCEPT !.scheme = "wss"]
 
 HistReplies == { GoodReply, [GoodReply EXCEPT !.acc = "stale"], [GoodReply EXCEPT !.acc = "swap"],
                  StdReply(403, << >>, << >>, "absent", 10, TRUE, "none") }
 
 MCDials(c) ==
+  (IF "body" \in Parts /\ c \in BodyCfgs THEN BodyDials ELSE {})
+  \cup (IF "urlp" \in Parts /\ c \in ProxyCfgs THEN UrlPDials ELSE {})
+  \cup
   (IF "reply" \in Parts /\ c \in CoreCfgs THEN { << D1(u, << >>, r) >> : u \in {PlainURL, WssURL}, r \in Replies } ELSE {})
   \cup (IF "url" \in Parts /\ c \in CoreCfgs THEN { << D1(u, h, GoodReply) >> : u \in URLs, h \in { << >>, << Hdr("Host", "override.example.test") >> } } ELSE {})
-  \cup (IF "hdr" \in Parts THEN { << D1(u, h, GoodReply) >> : u \in {PlainURL, WssURL}, h \in HdrSets } ELSE {})
+  \cup (IF "hdr" \in Parts /\ c \in SetCfgs THEN { << D1(u, h, GoodReply) >> : u \in {PlainURL, WssURL}, h \in HdrSets } ELSE {})
   \cup (IF "hist" \in Parts /\ c \in CoreCfgs THEN
           { << D1(PlainURL, << >>, r1), D1(u2, << >>, r2) >> : r1 \in HistReplies, r2 \in HistReplies, u2 \in {PlainURL, WssURL} }
           \cup { << D1(PlainURL, << >>, r1), D1([PlainURL EXCEPT !.scheme = "http"], << >>, GoodReply), D1(WssURL, << >>, r3) >> :
